@@ -149,7 +149,7 @@ def do_writes(hub, U, all_letters, letters, assign, rng, regime):
             key = build_key(fd, U, letters, assign, rng, order, spelling)
             kd = key if isinstance(key, dict) else None
             # region description from the assignment (works for all spellings when key is a dict)
-            for rhs_kind in ("number", "ndarray", "array", "array+extra", "array-permuted", "array-lacking"):
+            for rhs_kind in ("number", "ndarray", "array", "array+extra", "array-permuted", "array-lacking", "array-over-parent"):
                 t = fd.FlodymArray(dims=gen.dimset(fd, U, letters), values=gen.values_one("dyadic", rng, shape))
                 if rhs_kind == "number":
                     rhs = float(rng.integers(-50, 50)) / 4 if rng.random() < 0.7 else int(rng.integers(-5, 6))
@@ -173,6 +173,17 @@ def do_writes(hub, U, all_letters, letters, assign, rng, regime):
                                 if not dims:
                                     continue
                                 dims.pop(int(rng.integers(0, len(dims))))
+                            if rhs_kind == "array-over-parent":
+                                # where the key puts a subset dimension (its own letter) in place of a dimension, the source comes
+                                # over the PARENT dimension instead: it lacks the region's dimension (and has a surplus one)
+                                subs = [j_ for j_, d_ in enumerate(dims) if d_.letter not in letters]
+                                if not subs:
+                                    continue
+                                j_ = subs[int(rng.integers(0, len(subs)))]
+                                parent = [U[l_] for l_ in letters if set(dims[j_].items) <= set(U[l_].items) and U[l_].letter not in [d_.letter for d_ in dims]]
+                                if not parent:
+                                    continue
+                                dims[j_] = parent[0]
                         if rhs_kind == "array+extra":
                             extra = [U[l] for l in all_letters if l not in [d.letter for d in dims] and l.upper() not in [d.letter for d in dims]]
                             # dims selected by a single item are legitimate surplus dims of the source
